@@ -1110,6 +1110,54 @@ Definition drawn_member_gen (zw_show : bool) (ty w : Z) : bool := zw_show || neg
     return "gen/OverlayRules_gen.v"
 
 
+# ---- CPGraph.critical_path (hta/analyzers/critical_path_analysis.py) -> coq/gen/PathSets_gen.v ----
+def gen_path_sets() -> str:
+    """Reads CPGraph.critical_path statement by statement (strict shape, timing and logging aside): validation first; the node list is
+    nx.dag_longest_path over the graph attribute 'weight'; the event set is rebuilt from the nodes of that list; the edge set is reset
+    and refilled with the edge objects of consecutive nodes; the two assertions."""
+    path = "hta/analyzers/critical_path_analysis.py"
+    tree = ast.parse(open(os.path.join(fw.REPO, path)).read())
+    cls = next((n for n in tree.body if isinstance(n, ast.ClassDef) and n.name == "CPGraph"), None)
+    fn = next((n for n in (cls.body if cls else []) if isinstance(n, ast.FunctionDef) and n.name == "critical_path"), None)
+    if fn is None:
+        raise Stop("CPGraph.critical_path not found")
+
+    def noise(st):
+        t = ast.unparse(st)
+        return (isinstance(st, ast.Expr) and (isinstance(st.value, ast.Constant) or t.startswith("logger."))) or t in ("t0 = time.perf_counter()", "t1 = time.perf_counter()")
+    texts = [ast.unparse(st) for st in fn.body if not noise(st)]
+    want = ["if not self._validate_graph():\n    raise ValueError('Graph is not valid, see prints above for help on debugging')",
+            "try:\n    self.critical_path_nodes = nx.dag_longest_path(self, weight='weight')\nexcept nx.NetworkXUnfeasible as err:\n"
+            "    logger.error(f'Critical path algorithm failed due to {err}')\n    return False",
+            "assert len(self.critical_path_nodes) >= 2",
+            "self.critical_path_events_set = {self.node_list[nid].ev_idx for nid in self.critical_path_nodes}",
+            "self.critical_path_edges_set = set()",
+            "niter = iter(self.critical_path_nodes)",
+            "u = next(niter)",
+            "while 1:\n    try:\n        v = next(niter)\n        e = self.edges[u, v]['object']\n        self.critical_path_edges_set.add(e)\n        u = v\n"
+            "    except StopIteration:\n        break",
+            "assert len(self.critical_path_edges_set) == len(self.critical_path_nodes) - 1",
+            "return True"]
+    if texts != want:
+        bad = next((a for a, b in zip(texts, want) if a != b), f"{len(texts)} statements instead of {len(want)}")
+        raise Stop(f"CPGraph.critical_path: `{bad[:150]}` is not what the checker was written for")
+    out = '''(* GENERATED by harness/translate.py from hta/analyzers/critical_path_analysis.py (CPGraph.critical_path) -- do not edit.
+   The reported node list maximises the graph attribute 'weight'; on every call the event set is REBUILT as the events of the listed
+   nodes and the edge set is RESET and refilled with the edges between consecutive nodes of the list. *)
+From HTA.lib Require Import Base.
+Open Scope Z_scope.
+
+Fixpoint path_pairs_gen (l : list Z) : list (list Z) :=
+  match l with
+  | a :: (b :: _) as r => [a; b] :: path_pairs_gen r
+  | _ => []
+  end.
+Definition path_events_gen (ev_of : Z -> list Z) (l : list Z) : list Z := flat_map ev_of l.
+'''
+    write_if_changed(os.path.join(GEN, "PathSets_gen.v"), out)
+    return "gen/PathSets_gen.v"
+
+
 # ---- the change classes of hta/trace_diff.py -> coq/gen/DiffRules_gen.v ----
 def gen_diff_rules() -> str:
     """Reads TraceDiff.compare_traces (diff_counts / diff_duration = test minus control; the sign lambda of counts_change_categories) and the
